@@ -14,7 +14,7 @@ RULE = (
 )
 DECIDING = ["compiled", "xy_states_checked", "double_application_checked"]
 ASSUMPTIONS = ["f(x) is the value of the return expression of the list handed to the compiler", "failures already present at y=0 are blamed on the C02/C03 root cause per DESIGN 4.5"]
-CASE_TIMEOUT = {"quick": 60, "thorough": 120}
+CASE_TIMEOUT = {"quick": 25, "thorough": 90}
 
 
 def cases(tier, seed):
